@@ -20,7 +20,7 @@ class BranchTreeAssembler(Transform[BranchTree, Tree]):
 
             for br, c in self.pair(x.branches.get(n_orig.id, []), children):
                 s = 1 if np.linalg.norm(br[0].xyz() - n_orig.xyz()) < self.EPS else 0
-                e = -2 if np.linalg.norm(br[-1].xyz() - c.xyz()) < self.EPS else -1
+                e = -1 if np.linalg.norm(br[-1].xyz() - c.xyz()) < self.EPS else None
 
                 br_nodes = [n.detach() for n in br[s:e]] + [c.detach()]
                 for i, n in enumerate(br_nodes):
